@@ -8,8 +8,9 @@ Three-way check per case:  real  = cola.linalg.inverse.gmres.gmres on a product-
 Property statements tested on the real output, per column: residual <= initial residual; residual non-increasing in m
 (the case is re-run with m-1); residual zero (to rounding) at m >= grade / n; iterate = minimiser; products with the operator.
 
-Tolerances (`compare: "tol"`): real vs model |dx| <= 1e-8*max(1,|x|) + 1e3*eps*cond(G)*|x| where G is the regularised
-normal matrix (the code solves the *normal equations*, so LAPACK vs Gaussian elimination differ by eps*cond(H)^2);
+Tolerances (`compare: "tol"`): real vs model |dx| <= 1e-8*max(1,|x|) + 1e3*eps*cond(G)*|x| where G = H~[:, keep]^H H~[:, keep] is the
+normal matrix gmres_fwd solves (H~ the (m+1) x m Hessenberg matrix, `keep` the complement of its COLUMN-wise padding mask — mirrors
+cola/linalg/inverse/gmres.py after commit 9a9bf4d), so LAPACK vs Gaussian elimination differ by eps*cond(H~[:, keep])^2;
 spec: relative 1e-7 on residual norms (+ 1e-9*|b| absolute), 1e-6 on iterates.  Matrices as in c15.py (well-conditioned
 eigenbases, spectra on an annulus away from 0).
 """
@@ -29,7 +30,9 @@ MODULE = "ColaVerif.Properties.C13"
 EPS = K.EPS
 
 # Clauses of modelled defects are taken from /verif/known_findings.json (`common.known_clauses`); nothing is provisional.
-# Recorded for C13: maskExact, zeroResidual, breakdownNotMasked (floating point only), krylov-complex-operand-real-operator.
+# Recorded for C13: maskExact, zeroResidual, noClip, stopExact, breakdownNotMasked (floating point only).  Every one of them is
+# PRODUCED by this module on a concrete input of the current tree (hand-made stream S, `special_cases`): the KNOWN-FINDING line
+# is printed when the case is hit, and `clause_witnesses` in the evidence lists which hand-made case produced which clause.
 # Former defect (b) (`keepLastRow`) is repaired in /repo (commit 9a9bf4d) and `GMRES.dropLastRow = false` mirrors it; the clause
 # name is still produced by the oracle so that a regression shows up as a VIOLATION.
 PROVISIONAL_KNOWN = set()
@@ -43,9 +46,15 @@ WHAT = {
                    "the initial residual and grow with m; a singular H_m raises LinAlgError",
     "zeroResidual": "a column whose initial residual b - A x0 is exactly zero (b = 0 or x0 exact) is divided by its norm 0 in "
                     "init_arnoldi: the returned solution is NaN",
-    "maskExact": "the padding mask (rows of H with max |entry| < 10*tol*overall max) is a magnitude heuristic tied to tol: for tol = 1e-3 "
-                 "it masks rows of *executed* steps whose entries are below 1 % of the largest entry, zeroes that coefficient and "
-                 "regularises the row: wrong iterate although m >= grade",
+    "maskExact": "the padding mask of gmres_fwd (columns of the (m+1) x m Hessenberg matrix with max |entry| < 10*tol*overall max) is a "
+                 "magnitude heuristic tied to tol: at larger tol it also masks columns of *executed* steps whose entries are small "
+                 "relative to the largest entry, zeroes that coefficient and regularises the column: wrong iterate although m >= grade",
+    "noClip": "arnoldi_fact normalises with clip(norm, tol/2), an absolute floor: for an operator of small norm every step norm is below "
+              "tol/2, the Krylov vectors are not unit vectors while H records the true norms, and the least-squares problem GMRES "
+              "solves no longer represents the residual: wrong iterate (residual O(1) at m = n)",
+    "stopExact": "the Arnoldi loop stops by its tolerance test (norm <= tol*H[1,0]) before max_iters and before the Krylov space is "
+                 "exhausted: the iterate minimises over K_s with s < min(m, grade) only, so the residual is not zero at m >= n and not "
+                 "minimal over K_m (the theorems C13_krylov_optimal are about K_s, s = executed steps)",
     "breakdownNotMasked": "floating point only: a column whose Krylov space is exhausted keeps being stepped (batch, or breakdown in the "
                           "first step); amplified rounding noise enters H and the padding mask",
 }
@@ -92,6 +101,21 @@ def special_cases():
     # of C13_maskExact_clause_needed (tol = 0.2 masks the only row)
     out.append(dict(base, n=2, M=2, tol=1e-2, grades=[2], A=K.tojson(np.array([[1., 0.], [0.05, 0.05]])), B=K.tojson(np.array([[1., 0.]])), X0=K.tojson(np.zeros((1, 2)))))
     out.append(dict(base, n=1, M=1, tol=0.2, grades=[1], A=K.tojson(np.array([[2.]])), B=K.tojson(np.array([[1.]])), X0=K.tojson(np.zeros((1, 1)))))
+    # noClip: an operator of norm ~1e-9 with tol = 1e-7: every step norm is below the absolute floor tol/2
+    out.append(dict(base, n=3, M=3, tol=1e-7, grades=[3], witness_of="noClip", A=K.tojson(1e-9 * np.array([[3., 1., 0.], [2., 3., 1.], [0., 1., 4.]])),
+                    B=K.tojson(np.array([[1., 0., 0.]])), X0=K.tojson(np.zeros((1, 3)))))
+    # stopExact: weak coupling 8e-4 to the third coordinate, tol = 1e-3: the loop stops after two steps (norm 8e-4 <= tol*H[1,0] = 1e-3,
+    # and 8e-4 >= tol/2: no clip), although the grade is 3 = n = max_iters
+    for nn, dlt in ((3, 8e-4), (4, 7e-4)):
+        Aw = np.diag(np.arange(1., nn + 1)) + np.diag(np.ones(nn - 1), -1)
+        Aw[nn - 1, nn - 2] = dlt
+        Bw = np.zeros((1, nn)); Bw[0, 0] = 1.0
+        out.append(dict(base, n=nn, M=nn, tol=1e-3, grades=[nn], witness_of="stopExact", A=K.tojson(Aw), B=K.tojson(Bw), X0=K.tojson(np.zeros((1, nn)))))
+    # breakdownNotMasked (floating point only): every column of the identity has a Krylov space of dimension < 4 for this integer
+    # matrix; the batch keeps stepping the exhausted columns (witness recorded for C06 gmres-krylov-breakdown, tol = 1e-10)
+    Ab = np.array([[-1., 1., -1., -3.], [-1., 0., 0., 0.], [0., 1., 0., -1.], [0., -1., 1., 2.]])
+    out.append(dict(base, n=4, M=4, tol=1e-10, grades=[3, 3, 3, 3], rhs=["special"] * 4, single=False, witness_of="breakdownNotMasked",
+                    A=K.tojson(Ab), B=K.tojson(np.eye(4)), X0=K.tojson(np.zeros((4, 4)))))
     return out
 
 
@@ -118,6 +142,16 @@ def stream(ctx, g):
                 out.append(make_case(g, n, cls, cplx, M, tols[int(g.integers(len(tols)))], kinds, x0, single))
         for n in [3, 5, 8]:
             out.append(make_case(g, n, "nonsym", bool(g.integers(2)), n, 1e-7, ["generic", "generic"], "zero", False, stream="S", special="zero-column"))
+    # E. the sizes of the property text (n up to 150), once per run
+    big = [(32, 32, False), (64, 40, True)] if not ctx.thorough else \
+        [(64, 64, False), (64, 20, True), (100, 103, True), (100, 50, False), (150, 150, False), (150, 60, True)]
+    for n, M, cplx in big:
+        out.append(make_case(g, n, K.CLASSES[int(g.integers(len(K.CLASSES)))], cplx, M, 1e-7, ["generic"], "random" if n % 2 else "zero", True, stream="E"))
+    # C. operators of norm 1e-9 (every Arnoldi step norm is below the absolute floor tol/2: clause noClip)
+    for n in [2, 4, 6]:
+        c = make_case(g, n, "nonsym", bool(g.integers(2)), n, 1e-7, ["generic"], "zero", True, stream="C")
+        c["A"] = K.tojson(1e-9 * K.fromjson(c["A"], c["complex"]))
+        out.append(c)
     for n in [2, 4, 6]:       # real operator, complex right-hand side (dtype promotion)
         c = make_case(g, n, "nonsym", True, n, 1e-7, ["generic"], "zero", True, stream="D")
         c["A"] = K.tojson(K.fromjson(c["A"], True).real.astype(complex))
@@ -177,21 +211,54 @@ def real_arnoldi(case):
 
 
 def column_diagnosis(case, H, steps, c):
-    """-> (garbage, mask_inexact): stepping continued after a noise breakdown; the row mask hits an executed step"""
+    """What the CURRENT gmres_fwd (cola/linalg/inverse/gmres.py, after commit 9a9bf4d) does with the Arnoldi buffers of column c:
+         largest_vals = max(|H|, axis=-2)            # per COLUMN of the (M+1) x M Hessenberg matrix, all M+1 rows
+         overall_max  = max(largest_vals);  padding = largest_vals < 10*tol*overall_max
+    -> dict(garbage, mask_inexact, clipped, early_stop):
+       garbage      stepping continued after a noise breakdown (norm <= 1e-10*|A|): columns of amplified rounding noise;
+       mask_inexact the padding mask is not "true exactly on the unexecuted columns" (clause maskExact of C13_partial / C13_krylov_optimal);
+       clipped      an executed step had a genuine norm below the absolute floor tol/2 (clause noClip / noBreakdown);
+       early_stop   the loop stopped before min(max_iters, n) BY ITS STOPPING RULE (every column of the batch has norm <= tol*H[1,0], the very
+                    float comparison of cond_fun, C15_stopping) while this column's last norm is genuine (not noise): clause stopExact (the
+                    hypothesis `exactBreakdown` of C13_exact_at_grade_* fails and K_s is smaller than K_m).  A stop the rule does not justify
+                    is never excused."""
     A, an = K.norms(case)
     noise = K.NOISE_REL * an
-    M = case["M"]
-    Hc = H[c]
+    M, n, tol = case["M"], case["n"], case["tol"]
+    Hc = H[c]                                           # (M+1, M)
+    none = {"garbage": False, "mask_inexact": False, "clipped": False, "early_stop": False}
     if not np.all(np.isfinite(Hc)):
-        return False, False
+        return none
     jn = K.first_small(Hc, steps, noise)
     garbage = jn < steps - 1
-    Hs = Hc[:M, :M]
-    rowmax = np.abs(Hs).max(axis=1)
-    mask = rowmax < 10 * case["tol"] * rowmax.max()
-    s_eff = min(steps, jn + 1)
-    mask_inexact = any(bool(mask[r]) != (r >= s_eff) for r in range(M) if not (r == s_eff and r < M))
-    return garbage, mask_inexact
+    largest = np.abs(Hc).max(axis=0) if M else np.zeros(0)        # column-wise over M+1 rows
+    overall = largest.max() if M else 0.0
+    mask = largest < 10 * tol * overall
+    s_eff = min(steps, jn + 1)                          # executed steps that carry information (up to the first noise breakdown)
+    mask_inexact = any(bool(mask[j]) != (j >= s_eff) for j in range(M))
+    beta = [Hc[i + 1, i].real for i in range(steps)]
+    clipped = any(noise < b < tol / 2 for b in beta)
+    rule_says_stop = steps > 0 and all(np.all(np.isfinite(H[cc])) and H[cc][steps, steps - 1].real <= tol * H[cc][1, 0].real
+                                       for cc in range(H.shape[0]))
+    early_stop = 0 < steps < min(M, n) and beta[steps - 1] > noise and rule_says_stop
+    return {"garbage": garbage, "mask_inexact": mask_inexact, "clipped": clipped, "early_stop": early_stop}
+
+
+# which modelled deviation can explain which failed statement (a clause that does not explain a failure is never used to excuse it)
+EXPLAINS = {
+    "residual<=initial": ("garbage", "clipped", "mask_inexact"),
+    "iterate=minimiser": ("garbage", "clipped", "mask_inexact", "early_stop"),
+    "zero-at-grade": ("garbage", "clipped", "mask_inexact", "early_stop"),
+    "non-increasing": ("garbage", "clipped", "mask_inexact"),
+}
+CLAUSE_OF = {"garbage": "breakdownNotMasked", "clipped": "noClip", "mask_inexact": "maskExact", "early_stop": "stopExact"}
+
+
+def explain(name, d, fom):
+    for key in EXPLAINS.get(name, ()):
+        if d.get(key):
+            return CLAUSE_OF[key]
+    return "keepLastRow" if fom else None
 
 
 def krylov_basis(A, r, m):
@@ -299,11 +366,12 @@ def compare_real_model(case, real, model):
             if np.all(np.isfinite(xr)) != np.all(np.isfinite(xm)):
                 mism.append(f"col {c}: finiteness differs (real {np.all(np.isfinite(xr))}, model {np.all(np.isfinite(xm))})")
             continue
-        Ms = min(case["M"], model["H"][c].shape[1])
-        Hs = model["H"][c][:Ms, :Ms]
-        rowmax = np.abs(Hs).max(axis=1) if Ms else np.zeros(0)
-        keep = rowmax >= 10 * case["tol"] * (rowmax.max() if Ms else 0)
-        Hk = Hs[np.ix_(keep, keep)] if keep.any() else np.eye(1)
+        # the system gmres_fwd solves is H~[:, keep]^H H~[:, keep] (identity on the masked columns), H~ the (M+1) x M matrix and
+        # `keep` the complement of its column-wise padding mask: its condition number is cond(H~[:, keep])^2
+        Hs = model["H"][c]
+        colmax = np.abs(Hs).max(axis=0) if Hs.shape[1] else np.zeros(0)
+        keep = colmax >= 10 * case["tol"] * (colmax.max() if colmax.size else 0)
+        Hk = Hs[:, keep] if keep.any() else np.eye(1)
         cond = np.linalg.cond(Hk) ** 2 if Hk.size else 1.0
         tolx = 1e-8 * max(1.0, np.linalg.norm(xr)) + 1e3 * EPS * cond * max(1.0, np.linalg.norm(xr))
         d = np.linalg.norm(xr - xm)
@@ -324,13 +392,28 @@ def spec_check(case, real):
     R0 = B - X0 @ A.T
     zero_res = [c for c in range(k) if np.linalg.norm(R0[c]) == 0.0]
     Hreal, steps_real = real_arnoldi(case) if not zero_res else (None, 0)
-    diag = [column_diagnosis(case, Hreal, steps_real, c) if Hreal is not None else (False, False) for c in range(k)]
+    nodiag = {"garbage": False, "mask_inexact": False, "clipped": False, "early_stop": False}
+    diag = [column_diagnosis(case, Hreal, steps_real, c) if Hreal is not None else nodiag for c in range(k)]
     if "exception" in real:
         clause = "zeroResidual" if zero_res else None
         if clause is None and "Singular" in real["exception"]:
-            clause = "breakdownNotMasked" if any(d[0] for d in diag) else "maskExact" if any(d[1] for d in diag) else "keepLastRow"
+            clause = ("breakdownNotMasked" if any(d["garbage"] for d in diag) else "noClip" if any(d["clipped"] for d in diag)
+                      else "maskExact" if any(d["mask_inexact"] for d in diag) else "keepLastRow")
         return [("raises", clause, real["exception"])]
     xopt, dims = oracle(case)
+    # the stopping rule of the Arnoldi loop GMRES runs (C15_stopping), both directions, on the buffers it works with; exact float
+    # comparisons: `norm` is stored as H[idx, idx-1] and `tol * H[1,0]` is the expression cond_fun evaluates
+    if Hreal is not None and np.all(np.isfinite(Hreal)):
+        tol = case["tol"]
+        for idx in range(1, steps_real + 1):
+            small = all(Hreal[cc][idx, idx - 1].real <= tol * Hreal[cc][1, 0].real for cc in range(k))
+            if idx < steps_real and small:
+                fails.append(("arnoldi-stops-too-late", None, f"at index {idx} every column had norm <= tol*H[1,0] but {steps_real - idx} more steps were executed"))
+                break
+            if idx == steps_real and steps_real < min(M, n) and not small:
+                big = [cc for cc in range(k) if not Hreal[cc][idx, idx - 1].real <= tol * Hreal[cc][1, 0].real]
+                fails.append(("arnoldi-stops-too-early", None, f"stopped after {steps_real} < min(max_iters, n) = {min(M, n)} steps although column {big[0]} has "
+                                                               f"norm {Hreal[big[0]][idx, idx - 1].real:.3e} > tol*H[1,0] = {tol * Hreal[big[0]][1, 0].real:.3e}"))
     # products with the operator: at most min(m, n) Krylov products per column plus the one forming r0
     if real["products_cols"] > k * (min(M, n) + 1):
         fails.append(("products", None, f"{real['products_cols']} operator columns for {k} right-hand sides, max_iters={M}"))
@@ -352,23 +435,21 @@ def spec_check(case, real):
         # which modelled defect could explain a failure of this column?
         grade = case["grades"][c] if c < len(case.get("grades", [])) else n
         m_eff = min(M, n)
-        garbage, mask_inexact = diag[c]                             # stepped after its breakdown / mask hits an executed step
-        fom = m_eff < grade                                         # square H differs from the least-squares problem only before the grade
-        clause = "keepLastRow" if fom else ("breakdownNotMasked" if garbage else "maskExact" if mask_inexact else None)
+        d = diag[c]                                                 # what the current gmres_fwd did with this column (see column_diagnosis)
+        fom = m_eff < grade                                         # (regression detector) a square Galerkin system differs from the least-squares problem only before the grade
         slack = 1e-7 * max(res0, resopt) + 1e-9 * nb
         if res > res0 + slack:
-            fails.append(("residual<=initial", clause, f"col {c}: |b-Ax| = {res:.6g} > |b-Ax0| = {res0:.6g} (minimal {resopt:.6g})"))
+            fails.append(("residual<=initial", explain("residual<=initial", d, fom), f"col {c}: |b-Ax| = {res:.6g} > |b-Ax0| = {res0:.6g} (minimal {resopt:.6g})"))
         if res > resopt + slack:
-            fails.append(("iterate=minimiser", clause, f"col {c}: |b-Ax| = {res:.6g} > minimal residual over x0+K_m = {resopt:.6g} (m={M})"))
+            fails.append(("iterate=minimiser", explain("iterate=minimiser", d, fom), f"col {c}: |b-Ax| = {res:.6g} > minimal residual over x0+K_m = {resopt:.6g} (m={M}, executed steps {steps})"))
         elif np.linalg.norm(x - xopt[c]) > 1e-6 * max(1.0, np.linalg.norm(xopt[c])) * max(1.0, np.linalg.cond(A)):
-            fails.append(("iterate=minimiser", clause, f"col {c}: |x - x_opt| = {np.linalg.norm(x - xopt[c]):.3e}"))
+            fails.append(("iterate=minimiser", explain("iterate=minimiser", d, fom), f"col {c}: |x - x_opt| = {np.linalg.norm(x - xopt[c]):.3e}"))
         if m_eff >= grade and res > 1e-8 * nb * max(1.0, np.linalg.cond(A)):
-            fails.append(("zero-at-grade", clause, f"col {c}: m={M} >= grade {grade} but |b-Ax| = {res:.3e}"))
+            fails.append(("zero-at-grade", explain("zero-at-grade", d, fom), f"col {c}: m={M} >= grade {grade} but |b-Ax| = {res:.3e} (executed steps {steps})"))
         if prev is not None and "x" in prev and np.all(np.isfinite(prev["x"][c])):
             resprev = np.linalg.norm(b - A @ prev["x"][c])
             if res > resprev + 1e-7 * max(res0, resprev) + 1e-9 * nb:
-                cl = "keepLastRow" if (min(M - 1, n) < grade) else clause
-                fails.append(("non-increasing", cl, f"col {c}: |b-Ax_m| = {res:.6g} > |b-Ax_(m-1)| = {resprev:.6g} (m={M})"))
+                fails.append(("non-increasing", explain("non-increasing", d, min(M - 1, n) < grade), f"col {c}: |b-Ax_m| = {res:.6g} > |b-Ax_(m-1)| = {resprev:.6g} (m={M})"))
     return fails
 
 
@@ -380,6 +461,7 @@ class Engine(K.Engine):
         self.dist["x0"] = {}
         self.dist["rhs_kinds"] = {}
         self.dist["model_switch_dropLastRow"] = {}
+        self.dist["clause_witnesses"] = {}
 
     def account(self, case, real):
         key = common.canon({k: case[k] for k in ("A", "B", "X0", "M", "tol", "single")})
@@ -421,7 +503,7 @@ class Engine(K.Engine):
                 fails = [(f[0], MIXED, f[2]) for f in fails] or [("iterate=minimiser", MIXED, "Arnoldi buffers are real for a complex residual")]
         if mism:
             self.dist["outcomes"]["real!=model"] += 1
-            hard = [f for f in fails if f[1] is None]
+            hard = self.unexcused(fails)
             if hard:
                 common.violation(ctx, {"case": case, "failed": [list(f) for f in hard], "real_vs_model": mism})
             else:
@@ -446,33 +528,82 @@ class Engine(K.Engine):
             self.dist["clause_by_stream"][ks] = self.dist["clause_by_stream"].get(ks, 0) + 1
             if clause in self.known:
                 common.known_finding(ctx, clause, WHAT[clause] + f" [e.g. n={case['n']} max_iters={case['M']} tol={case['tol']}: {name}: {detail}]")
+                if case.get("witness_of") == clause or (case.get("stream") == "S" and clause not in self.dist["clause_witnesses"]):
+                    self.dist["clause_witnesses"][clause] = {"A": case["A"], "B": case["B"], "X0": case["X0"], "max_iters": case["M"],
+                                                             "tol": case["tol"], "failed": name, "detail": detail}
             else:
                 common.violation(ctx, {"case": case, "failed": [[name, clause, detail]], "clause": clause,
                                        "note": "modelled defect (real = model != spec), clause not listed in known_findings.json"})
                 return "violation"
         return status
 
-    def search(self, case):
+    def search(self, case, budget=120):
+        """real != model: look for a concrete input on which the REAL gmres violates a property statement that no recorded clause
+        explains.  Neighbourhood: the case under nearby parameters (default tolerance, max_iters around n, x0 = 0), the operator scaled to
+        norm 1, other right-hand sides (unit vector, all-ones, a vector in a 2-dimensional invariant subspace; batches mixing a generic
+        column with an early-breakdown column, 1-D and (n, k) calls), leading principal sub-blocks.  -> (case, hard failures) | None"""
         cplx = case["complex"]
         A = K.fromjson(case["A"], cplx)
         B = K.fromjson(case["B"], cplx)
         X0 = K.fromjson(case["X0"], cplx)
         n = case["n"]
-        tried = 0
-        for nn in [n] + list(range(1, n)):
-            if abs(np.linalg.det(A[:nn, :nn])) < 1e-8:
-                continue
-            for M in range(1, nn + 4):
-                c2 = dict(case)
-                c2.update({"n": nn, "M": M, "A": K.tojson(A[:nn, :nn]), "B": K.tojson(B[:, :nn]), "X0": K.tojson(X0[:, :nn]),
-                           "grades": [nn] * B.shape[0]})
-                r = eval_real(c2)
-                hard = [f for f in spec_check(c2, r) if f[1] is None]
-                tried += 1
-                if hard:
-                    return c2, hard
-                if tried > 60:
-                    return None
+        an = float(np.linalg.norm(A, 2)) if A.size else 0.0
+        cands, seen = [], set()
+
+        def add(A2, B2, X2, M, tol, single, grades=None):
+            B2, X2 = np.atleast_2d(B2), np.atleast_2d(X2)
+            nn = A2.shape[0]
+            if nn == 0 or M < 1 or abs(np.linalg.det(A2)) < 1e-8 * max(1.0, np.linalg.norm(A2, 2)) ** nn:
+                return
+            c2 = dict(case)
+            c2.update({"n": nn, "M": int(M), "tol": float(tol), "A": K.tojson(A2), "B": K.tojson(B2), "X0": K.tojson(X2),
+                       "x0": "zero" if not np.any(X2) else "given", "single": bool(single and B2.shape[0] == 1),
+                       "grades": list(grades) if grades is not None else [nn] * B2.shape[0], "rhs": ["search"] * B2.shape[0],
+                       "stream": case.get("stream", "?") + "/search"})
+            c2.pop("mixed", None)
+            c2.pop("witness_of", None)
+            key = common.canon({k: c2[k] for k in ("A", "B", "X0", "M", "tol", "single")})
+            if key not in seen:
+                seen.add(key)
+                cands.append(c2)
+
+        Z = np.zeros_like(B)
+        for tol in dict.fromkeys([case["tol"], 1e-7, 1e-5]):
+            for M in dict.fromkeys([case["M"], n, max(1, n - 1), n + 2]):
+                add(A, B, X0, M, tol, case["single"], case.get("grades"))
+        add(A, B, Z, n, 1e-7, case["single"], case.get("grades"))
+        As = A / an if (an > 0 and not 0.5 <= an <= 2.0) else A
+        if As is not A:
+            for M in dict.fromkeys([n, case["M"]]):
+                add(As, B, Z, M, 1e-7, case["single"])
+        dt = complex if cplx else float
+        e1 = np.zeros(n, dtype=dt)
+        e1[0] = 1.0
+        gen = B[0] if np.linalg.norm(B[0]) > 0 else np.ones(n, dtype=dt)
+        rhs = [(e1, n), (np.ones(n, dtype=dt), n)]
+        try:
+            w, X = np.linalg.eig(As)
+            if n >= 2:
+                v2 = X[:, 0] + X[:, 1]
+                v2 = v2 if cplx else np.real(v2)
+                rhs.append((v2, 2 if cplx or abs(w[0].imag) > 0 or abs(w[1].imag) == 0 else 3))
+        except Exception:  # noqa: BLE001
+            pass
+        for v, gr in rhs:
+            for M in dict.fromkeys([n, n + 2, max(1, n // 2)]):
+                add(As, v, np.zeros(n, dtype=dt), M, 1e-7, True, [gr])
+        if len(rhs) >= 3:
+            v2, gr = rhs[2]
+            add(As, np.stack([gen, v2]), np.zeros((2, n), dtype=dt), n, 1e-7, False, [n, gr])
+            add(As, np.stack([v2, gen, e1]), np.zeros((3, n), dtype=dt), n + 1, 1e-7, False, [gr, n, n])
+            add(As, np.stack([gen, v2]), np.stack([0.5 * gen, 0.25 * v2]), n, 1e-7, False, None)
+        for nn in range(n - 1, 0, -1):
+            add(As[:nn, :nn], B[:, :nn], np.zeros_like(B[:, :nn]), nn, 1e-7, case["single"])
+        for c2 in cands[:budget]:
+            r = eval_real(c2)
+            hard = self.unexcused(spec_check(c2, r))
+            if hard:
+                return c2, hard
         return None
 
     def run(self, cases):
@@ -512,14 +643,19 @@ def run(ctx):
     cov = eng.coverage()
     cov["rule"] = ("invertible A = X D X^-1 as in C15 (normal / nonsym / nonnormal / jordanish, real and complex, n = 1..%d), 1-3 right-hand "
                    "sides (1-D, (n,1) and (n,k) arrays), initial residuals generic / in an invariant subspace of dimension 1-3 (early "
-                   "breakdown), x0 = None or random, max_iters = 1..n+3, tol in {1e-3,1e-5,1e-7,1e-8}, plus small integer systems (zero "
-                   "residual, singular Galerkin matrix, the 2x2 witness); distinct = canonical JSON of (A, B, X0, max_iters, tol, 1-D); "
+                   "breakdown), x0 = None or random, max_iters = 1..n+3, tol in {1e-3,1e-5,1e-7,1e-8}, plus n = 32, 64 (quick) / 64, 100, 150 "
+                   "(thorough), operators of norm 1e-9, and hand-made systems that produce every recorded clause on the current tree (zero "
+                   "residual, padding mask on an executed column, absolute clip, early tolerance stop, batch breakdown at tol = 1e-10; see "
+                   "distributions.clause_witnesses); distinct = canonical JSON of (A, B, X0, max_iters, tol, 1-D); "
                    "non-trivial = n >= 2 and >= 1 Arnoldi step; products with A counted by a wrapping LinearOperator; oracle = dense least "
                    "squares over an orthonormal Krylov basis" % (12 if not ctx.thorough else 40))
     cov["trusted_base_extra"] = ["lean/DriverArnoldi.lean, the Float/CF instances and `GMRES.gaussSolve` (stand-in for np.linalg.solve, which is a "
                                  "parameter of the model with its contract as a hypothesis)"]
     common.write_evidence(ctx, gate, cov, assumptions=[
         "theorems are about exact real/complex arithmetic; rounding is outside the model",
+        "CONTRACT: the dense solver (np.linalg.solve, LAPACK gesv) is a parameter of the model under `GMRES.SolverSound` (on a nonsingular "
+        "system the returned vector solves it; satisfiable: GMRES.exactSolve_sound); that the system gmres_fwd hands over is nonsingular "
+        "is proved (GMRES.normalMatrix_regular); the driver runs Gauss-Jordan elimination (GMRES.gaussSolve), not proved to meet the contract",
         "'at most m products with the operator per column' is read as: at most min(m, n) Krylov products plus the one product that forms "
         "the initial residual b - A x0 (the code forms A @ x0 even for the default x0 = 0): the literal count is min(m, n) + 1",
         "preconditioner P, use_householder, use_triangular are outside the model (defaults only)",
